@@ -740,9 +740,13 @@ func (r *cx4Round) received(host, key, ds string, real []int, body int, note str
 	k := fmt.Sprint(host, "|", key, "|", ds, "|", real)
 	r.seen[k]++
 	b := "ok"
-	if r.srng.Intn(100) < r.fault {
+	switch {
+	case r.seen[k] > 1 && r.fault > 0 && r.srng.Intn(2) == 0:
+		// a second attempt meets another retryable answer half of the time (the retry budget is the point)
+		b = []string{"timeout", "timeout", "r429_1", "r503_1", "r503_2", "r429_none"}[r.srng.Intn(6)]
+	case r.srng.Intn(100) < r.fault:
 		b = r.menu[r.srng.Intn(len(r.menu))]
-	} else if r.srng.Intn(4) == 0 {
+	case r.srng.Intn(4) == 0:
 		b = "ok_m"
 	}
 	r.tw.Emit("req", map[string]any{"host": host, "key": key, "ds": ds, "ids": ids, "body": body, "try": r.seen[k], "b": b, "note": note})
